@@ -128,6 +128,32 @@ def tx_limit(sx, server, n, mode):
     p.maxMessagePayloadSize = lim
     pl = sx.bytes("m", n)
     kw = {}
+    if mode == "deflate":
+        # permessage-deflate negotiated: the limit is about what goes on the wire (the peer applies the same limit to what it receives)
+        import autobahn.websocket.compress_deflate as cd
+        cd.zlib = ZModel()
+        p._perMessageCompress = cd.PerMessageDeflate(server, False, False, 15, 15, 8)
+        try:
+            p.sendMessage(pl, isBinary=True)
+            exc = None
+        except PayloadExceededError as e:
+            exc = e
+        except Exception as e:  # noqa
+            sx.fail("unexpected-exception-type-from-sendMessage", info=repr(e))
+            return ["exc"]
+        wslib.drain(clock)
+        wire = wslib.concat(ep.t.take())
+        info = dict(n=n, mode=mode, server=server)
+        if exc is not None:
+            sx.check(len(wire) == 0, "nothing-written-on-refused-send", info=info)
+            sx.check(sx.And(lim > 0, lim < n + 4), "refused-only-when-the-wire-payload-exceeds-the-limit", info=info)
+            sx.cover("tx:refused")
+        else:
+            frames, rest = wslib.parse_frames(sx, wire)
+            total = sum(f.length for f in frames if f.opcode < 8)
+            sx.check(sx.Or(lim == 0, total <= lim), "written-wire-payload-never-exceeds-the-limit", info=dict(info, total=total))
+            sx.cover("tx:sent")
+        return [exc is None]
     if mode == "frag":
         kw["fragmentSize"] = max(1, n // 2)
     elif mode == "auto":
@@ -250,7 +276,7 @@ def units(tier):
                         U.append(("rx/%s/%s/%s/f%d/%d%d" % ("S" if server else "C", "drop" if fbd else "hs", "-".join(map(str, lens)) or "none", form, uf, um),
                                   "rx_limit", dict(server=server, fbd=fbd, lens=lens, last_form=form, use_frame_limit=uf, use_msg_limit=um)))
         for n in (range(0, 6) if q else range(0, 9)):
-            for mode in ("plain", "frag", "auto"):
+            for mode in ("plain", "frag", "auto", "deflate"):
                 U.append(("tx/%s/n%d/%s" % ("S" if server else "C", n, mode), "tx_limit", dict(server=server, n=n, mode=mode)))
         for order in ("together", "frame-first", "msg-first"):
             for same in (True, False):
